@@ -107,8 +107,9 @@ fn auxv_first(w: &World, key: u64) -> Option<u64> {
     if w.auxv_missing {
         return None;
     }
-    // the kernel's auxv is read through the process id: an exited (zombie) leader has none
-    if w.threads.first().map(|t| t.zombie).unwrap_or(false) {
+    // an exited (zombie) leader has no auxv of its own, the kernel still reports the process's
+    // auxv through every other thread
+    if w.threads.first().map(|t| t.zombie).unwrap_or(false) && !w.threads.iter().skip(1).any(|t| !t.zombie && !t.foreign_tracer) {
         return None;
     }
     w.auxv.iter().find(|(k, _)| *k == key).map(|(_, v)| *v)
